@@ -20,34 +20,130 @@ def CountsOk (m : CoinMap) : Prop :=
 /-- inserting a fresh coin keeps the invariant -/
 theorem C20_insert_fresh (m : CoinMap) (id : CoinID) (d : CoinDataHeight) (h : CountsOk m)
     (hfresh : m.getCoin id = none) : CountsOk (m.insertCoin id d true) := by
-  sorry
+  obtain ⟨hk, hc, hcnt, hnz⟩ := h
+  have hfresh' : m.coins.get id = none := hfresh
+  have hins : m.insertCoin id d true =
+      { coins := m.coins.set id d,
+        counts := m.counts.set d.coinData.covhash (m.coinCount d.coinData.covhash + 1) } := by
+    simp [CoinMap.insertCoin, hfresh']
+  rw [hins]
+  refine ⟨AList.keys_nodup_set id d hk, AList.keys_nodup_set _ _ hc, ?_, ?_⟩
+  · intro a
+    have hdel : m.coins.del id = m.coins := AList.del_eq_self_of_get_none hfresh'
+    by_cases ha : a = d.coinData.covhash
+    · subst ha
+      have := hcnt d.coinData.covhash
+      simp only [coinsWith, CoinMap.coinCount] at this ⊢
+      rw [AList.get_set_self]
+      simp [AList.set, hdel, this]
+    · have := hcnt a
+      have ha' : ¬ d.coinData.covhash = a := fun h => ha h.symm
+      simp only [coinsWith, CoinMap.coinCount] at this ⊢
+      rw [AList.get_set_ne _ _ ha, this]
+      simp [AList.set, hdel, ha']
+  · intro e he
+    simp only [AList.set, List.mem_cons] at he
+    rcases he with he | he
+    · subst he; simp
+    · exact hnz e (AList.mem_del.mp he).1
 
 /-- overwriting a coin keeps the invariant when the covenant hash is unchanged
     (this is the side condition every rewriting call site has to meet) -/
 theorem C20_insert_overwrite (m : CoinMap) (id : CoinID) (d old : CoinDataHeight) (h : CountsOk m)
     (hold : m.getCoin id = some old) (hsame : old.coinData.covhash = d.coinData.covhash) :
     CountsOk (m.insertCoin id d true) := by
-  sorry
+  obtain ⟨hk, hc, hcnt, hnz⟩ := h
+  have hold' : m.coins.get id = some old := hold
+  have hins : m.insertCoin id d true = { m with coins := m.coins.set id d } := by
+    simp [CoinMap.insertCoin, hold']
+  rw [hins]
+  refine ⟨AList.keys_nodup_set id d hk, hc, ?_, hnz⟩
+  intro a
+  have hfd := AList.filter_del_length (fun e => decide (e.2.coinData.covhash = a)) hk hold'
+  have := hcnt a
+  simp only [coinsWith, CoinMap.coinCount] at this ⊢
+  rw [this, ← hfd]
+  simp only [AList.set, List.filter_cons, hsame]
+  by_cases hp : d.coinData.covhash = a <;> simp [hp]
 
 /-- removing a coin (present or not) keeps the invariant and never underflows -/
 theorem C20_remove (m : CoinMap) (id : CoinID) (h : CountsOk m) :
     ∃ m', m.removeCoin id true = .ok m' ∧ CountsOk m' := by
-  sorry
+  obtain ⟨hk, hc, hcnt, hnz⟩ := h
+  cases hget : m.coins.get id with
+  | none =>
+    refine ⟨m, ?_, hk, hc, hcnt, hnz⟩
+    simp [CoinMap.removeCoin, hget, AList.del_eq_self_of_get_none hget]
+  | some d =>
+    have hfd := fun a => AList.filter_del_length (fun e => decide (e.2.coinData.covhash = a)) hk hget
+    have hcpos : m.coinCount d.coinData.covhash ≠ 0 := by
+      have := hfd d.coinData.covhash
+      rw [hcnt]; simp only [coinsWith]; simp at this; omega
+    refine ⟨_, by simp [CoinMap.removeCoin, hget, hcpos]; rfl, ?_⟩
+    by_cases hz : m.coinCount d.coinData.covhash - 1 = 0
+    · simp only [CoinMap.insertCoinCount, hz, if_true]
+      refine ⟨AList.keys_nodup_del id hk, AList.keys_nodup_del _ hc, ?_, ?_⟩
+      · intro a
+        have h1 := hfd a
+        have h2 := hcnt a
+        simp only [coinsWith, CoinMap.coinCount] at h2 hz ⊢
+        by_cases ha : a = d.coinData.covhash
+        · subst ha
+          rw [AList.get_del_self]
+          simp at h1 ⊢; omega
+        · have ha' : ¬ d.coinData.covhash = a := fun h => ha h.symm
+          rw [AList.get_del_ne _ ha, h2, ← h1]
+          simp [ha']
+      · intro e he
+        exact hnz e (AList.mem_del.mp he).1
+    · simp only [CoinMap.insertCoinCount, hz, if_false]
+      refine ⟨AList.keys_nodup_del id hk, AList.keys_nodup_set _ _ hc, ?_, ?_⟩
+      · intro a
+        have h1 := hfd a
+        have h2 := hcnt a
+        simp only [coinsWith, CoinMap.coinCount] at h2 hz ⊢
+        by_cases ha : a = d.coinData.covhash
+        · subst ha
+          rw [AList.get_set_self]
+          simp at h1 ⊢; omega
+        · have ha' : ¬ d.coinData.covhash = a := fun h => ha h.symm
+          rw [AList.get_set_ne _ _ ha, h2, ← h1]
+          simp [ha']
+      · intro e he
+        simp only [AList.set, List.mem_cons] at he
+        rcases he with he | he
+        · subst he; exact hz
+        · exact hnz e (AList.mem_del.mp he).1
 
 /-- the counts are a function of the coin content: two maps satisfying the invariant with the same
     coins agree on every count -/
 theorem C20_counts_determined (m₁ m₂ : CoinMap) (h₁ : CountsOk m₁) (h₂ : CountsOk m₂)
     (hc : ∀ id, m₁.getCoin id = m₂.getCoin id) (a : Hash) : m₁.coinCount a = m₂.coinCount a := by
-  sorry
+  rw [h₁.2.2.1 a, h₂.2.2.1 a]
+  exact AList.filter_length_congr _ m₁.coins m₂.coins h₁.1 h₂.1 hc
 
 /-- at the activation height the counts are initialised from the existing (count-free) coin set -/
 theorem C20_activation (m : CoinMap) (hk : (m.coins.map (·.1)).Nodup) (hempty : m.counts = []) :
     CountsOk (applyTip906Transition m) := by
-  sorry
+  have hn : (AList.keys m.counts).Nodup := by rw [hempty]; exact List.nodup_nil
+  have hz : ∀ e ∈ m.counts, e.2 ≠ 0 := by rw [hempty]; intro e he; cases he
+  obtain ⟨i1, i2, i3, i4⟩ := tip906_fold_inv m.coins m hn hz
+  have hfold : applyTip906Transition m = m.coins.foldl tip906Step m := rfl
+  rw [hfold]
+  refine ⟨by rw [i1]; exact hk, i2, ?_, i4⟩
+  intro a
+  rw [i3 a]
+  simp [coinsWith, CoinMap.coinCount, hempty, i1, AList.get]
 
 /-- non-vacuity: a concrete two-coin map satisfies the invariant after the transition -/
 example : (applyTip906Transition
     { coins := [(⟨[1], 0⟩, ⟨⟨[7], 5, .mel, []⟩, 0⟩), (⟨[2], 0⟩, ⟨⟨[7], 6, .sym, []⟩, 0⟩)], counts := [] }).coinCount [7] = 2 := by
-  sorry
+  decide
 
 end Mel
+
+#print axioms Mel.C20_insert_fresh
+#print axioms Mel.C20_insert_overwrite
+#print axioms Mel.C20_remove
+#print axioms Mel.C20_counts_determined
+#print axioms Mel.C20_activation
